@@ -14,6 +14,9 @@ use std::sync::Arc;
 use crate::svm::{addr, meta, process, Db, TxError};
 use crate::world::{self, ata, feed_account, ix, mint_acc, sys, token_acc, token_amount, MarketKeys, W};
 
+/// the first markets are enumerated exhaustively as short paths; all of them serve the long-path section
+const N_ENUM: usize = 5;
+
 struct X {
     w: W,
     c: Pubkey,
@@ -44,12 +47,19 @@ fn build() -> (Db, X) {
     let m3 = mk(c, w.b, c, "C/USD[B-C]");
     let m4 = mk(c, w.a, c, "C/USD[A-C]");
     let m5 = mk(w.b, w.b, w.a, "B/USD[B-A]");
+    // further markets, used only by the long-path section (distinct (index, long, short) triples over the three tokens)
+    let mut extra = vec![];
+    for (k, (index, long, short)) in [(c, w.a, w.b), (w.a, w.b, w.a), (c, w.b, w.a), (w.a, w.a, c), (w.b, w.a, c), (w.a, c, w.a), (w.b, c, w.a), (w.a, w.b, c), (w.b, w.b, c), (w.a, c, w.b), (w.b, c, w.b), (c, c, w.b)].into_iter().enumerate() {
+        extra.push(mk(index, long, short, &format!("X{k}")));
+    }
     let feed_c = addr("w-feed-c");
     db.set(feed_c, feed_account(&w.store, &c, &feed_id_c, 0, 1_000, 10, 2_0000_0000, 2_0000_0000, 2_0000_0000, 8, true));
     for u in [w.user, w.user2] {
         db.set(ata(&u, &c), token_acc(c, u, 1_000_000_000_000));
     }
-    let x = X { markets: vec![w.m1.clone(), w.m2.clone(), m3, m4, m5], w, c, feed_c };
+    let mut markets = vec![w.m1.clone(), w.m2.clone(), m3, m4, m5];
+    markets.extend(extra);
+    let x = X { markets, w, c, feed_c };
     // liquidity in every market
     for (i, m) in x.markets.clone().iter().enumerate() {
         let n = [40 + i as u8; 32];
@@ -132,6 +142,9 @@ fn unit_price(db: &Db, feed: &Pubkey) -> Price<u128> {
 
 /// reference: does the path chain from `token` to `target`, without duplicates? returns the token sequence
 fn chain(path: &[&MarketKeys], token: Pubkey, target: Pubkey) -> Option<Vec<Pubkey>> {
+    if path.len() > gmsol_utils::swap::SwapActionParams::MAX_TOTAL_LENGTH {
+        return None;
+    }
     let mut seen: Vec<Pubkey> = vec![];
     let mut cur = token;
     let mut seq = vec![cur];
@@ -319,7 +332,7 @@ fn check_path(x: &X, db0: &Db, pidx: &[usize], token: Pubkey, amount: u64, tampe
 pub fn run(cli: &Cli) -> Report {
     let mut rep = Report::new(cli, "exploration");
     rep.rule("E1 over swap paths: every sequence of 0..=3 markets out of five (A|A/B, B|A/B, C|B/C, C|A/C, B|B/A; so paths with duplicates, non-chaining paths and paths through the deposit market itself all occur) x initial token in {A,B,C} x amounts, as the long-side swap path of a real create_deposit + execute_deposit into the first market: creation must accept exactly the duplicate-free paths that chain from the initial token into the market's long token; after a completed execution recorded balances and vault balances move together, markets outside the path are untouched, and each declared hop moved exactly the amounts the (C40-validated) SDK swap computes, in order; stored paths tampered to contain a duplicate (adjacent: [p,p,..]; revisiting: [p,q,p] over one token pair, where every hop chains) must not execute; non-trivial = the deposit was created");
-    rep.assume("svm-lite runtime trusted; paths of length 4..10 and swap orders use the same SwapMarkets code and are not enumerated. Second section: real create/execute withdrawal from the first market with every pair of (long-side path, short-side path) of length 0..=2 over the four other markets: creation accepts exactly the pairs whose paths chain without a repeated market; after completion the recorded balances of every market moved exactly as the withdrawal followed by the two declared paths implies (SDK model threaded through both sides in order), and the escrow received the reference amounts. Third section: the SwapActionParams accessors (paths, first/last market of each side, duplicate validation, unique markets) over every (primary, secondary) length pair within the total limit x three fillings against the declared slices");
+    rep.assume("svm-lite runtime trusted; swap orders use the same SwapMarkets code (executed in C22/C23). Long paths: two paths each of eight, nine, ten and eleven hops (depth-first over seventeen markets) per initial token: within the ten-step limit they are created, executed and every hop compared with the reference; eleven hops must be refused at creation. Second section: real create/execute withdrawal from the first market with every pair of (long-side path, short-side path) of length 0..=2 over the four other markets: creation accepts exactly the pairs whose paths chain without a repeated market; after completion the recorded balances of every market moved exactly as the withdrawal followed by the two declared paths implies (SDK model threaded through both sides in order), and the escrow received the reference amounts. Third section: the SwapActionParams accessors (paths, first/last market of each side, duplicate validation, unique markets) over every (primary, secondary) length pair within the total limit x three fillings against the declared slices");
     let (db, x) = build();
     if let Some(rv) = &cli.replay {
         let pidx: Vec<usize> = rv["path"].as_array().map(|a| a.iter().map(|v| v.as_u64().unwrap_or(0) as usize).collect()).unwrap_or_default();
@@ -342,7 +355,7 @@ pub fn run(cli: &Cli) -> Report {
     for _ in 0..max_len {
         let mut next = vec![];
         for p in &frontier {
-            for k in 0..x.markets.len() {
+            for k in 0..N_ENUM {
                 let mut q = p.clone();
                 q.push(k);
                 next.push(q);
@@ -367,6 +380,7 @@ pub fn run(cli: &Cli) -> Report {
     if counters.get("executed").copied().unwrap_or(0) == 0 {
         rep.machinery("vacuous exploration: no swap path was executed");
     }
+    long_paths(&mut rep, &x, &db);
     withdrawals(&mut rep, &x, &db, th);
     accessors(&mut rep);
     gmsol_programs::model::clock_verif::set_now(None);
@@ -535,7 +549,7 @@ fn withdrawals(rep: &mut Report, x: &X, db0: &Db, th: bool) {
     let have = token_amount(&db, &user_ata);
     db.set(user_ata, world::token_acc(x.markets[0].market_token, x.w.user2, have + minted));
     // paths over the markets other than the withdrawal market, length 0..=2 per side
-    let others: Vec<usize> = (1..x.markets.len()).collect();
+    let others: Vec<usize> = (1..N_ENUM).collect();
     let mut paths: Vec<Vec<usize>> = vec![vec![]];
     for a in &others {
         paths.push(vec![*a]);
@@ -604,4 +618,56 @@ fn accessors(rep: &mut Report) {
             }
         }
     });
+}
+
+
+// ------------------------------------------------------------------ paths at the ten-step limit
+
+/// depth-first search for market-simple paths of exactly `len` hops from `from` to `to` that avoid market 0 (the deposit
+/// market); returns up to `want` of them in a fixed order
+fn find_paths(x: &X, from: Pubkey, to: Pubkey, len: usize, want: usize) -> Vec<Vec<usize>> {
+    fn go(x: &X, cur: Pubkey, to: Pubkey, len: usize, path: &mut Vec<usize>, out: &mut Vec<Vec<usize>>, want: usize) {
+        if out.len() >= want {
+            return;
+        }
+        if path.len() == len {
+            if cur == to {
+                out.push(path.clone());
+            }
+            return;
+        }
+        for mi in 1..x.markets.len() {
+            if path.contains(&mi) {
+                continue;
+            }
+            let m = &x.markets[mi];
+            let next = if m.long == cur && m.short != cur { m.short } else if m.short == cur && m.long != cur { m.long } else { continue };
+            path.push(mi);
+            go(x, next, to, len, path, out, want);
+            path.pop();
+        }
+    }
+    let mut out = vec![];
+    go(x, from, to, len, &mut vec![], &mut out, want);
+    out
+}
+
+fn long_paths(rep: &mut Report, x: &X, db: &Db) {
+    let mut cases: Vec<(Vec<usize>, Pubkey)> = vec![];
+    for token in [x.w.a, x.w.b, x.c] {
+        for len in [8usize, 9, 10, 11] {
+            for p in find_paths(x, token, x.markets[0].long, len, 2) {
+                cases.push((p, token));
+            }
+        }
+    }
+    let counters = e1::run(rep, "swap paths of eight to eleven hops", &cases, |(p, token), sink| {
+        check_path(x, db, p, *token, 1_000_000, 0, sink);
+        sink.count(if p.len() > 10 { "paths_over_the_limit" } else { "paths_within_the_limit" });
+    });
+    for k in ["paths_over_the_limit", "paths_within_the_limit"] {
+        if counters.get(k).copied().unwrap_or(0) == 0 {
+            rep.machinery(format!("vacuous long-path section: {k} never occurred"));
+        }
+    }
 }
